@@ -111,6 +111,8 @@ vector<GlobalGraph::Edge> GlobalGraph::unlink(Graph::NodeId nodeA, Graph::NodeId
   nodeMustExist_(nodeB, "second node to unlink");
   vector<GlobalGraph::Edge> deletedEdges; // what edges ID are affected by this unlinking
   deletedEdges.push_back(unlinkInNodeStructure_(nodeA, nodeB));
+  if (!directed_ && nodeA != nodeB)
+    unlinkInNodeStructure_(nodeB, nodeA); // an undirected relation is stored in both directions
 
   for (auto& currEdgeToDelete : deletedEdges)
   {
